@@ -56,7 +56,7 @@ def scenario(run, rng, pv, idx):
     def note(kind, packet, direction, **kw):
         packets_alive.append(packet)
         log.emit(kind, pkt=id(packet), cls=type(packet).__name__,
-                 dir=direction, **kw)
+                 dir=direction, pid=getattr(packet, 'id', None), **kw)
 
     # ---- configuration -----------------------------------------------------
     config = {'early_in': [], 'in': [], 'early_out': [], 'out': []}
@@ -83,6 +83,17 @@ def scenario(run, rng, pv, idx):
     unknown_id = next(i for i in (0x7E, 0x7D, 0x6B, 0x69) if i not in known)
     play_hist = ['ka'] * n_ka + ['chat'] * n_chat_in + ['unknown'] * n_unknown
     rng.shuffle(play_hist)
+    # phase 2: more listeners are registered *while the session is running*
+    # (after packets of the same classes have already been dispatched), then a
+    # second history follows; sentinel frames (an unknown id of their own) mark
+    # the end of each phase so that the phase of every packet is unambiguous
+    late = rng.random() < 0.6
+    sentinel_id = next(i for i in (0x7B, 0x7A, 0x6A, 0x68)
+                       if i not in known and i != unknown_id)
+    n_ka2 = rng.randrange(1, 4)
+    play_hist2 = ['ka'] * n_ka2 + ['chat'] * rng.randrange(0, 2) + \
+        ['unknown'] * rng.randrange(0, 2)
+    rng.shuffle(play_hist2)
     incoming_expected = []       # (class name, key) in arrival order
 
     def handler(io):
@@ -106,18 +117,25 @@ def scenario(run, rng, pv, idx):
             io.send_frame(cid, cp)
             io.enable_compression(10 ** 6)
         scripts.send_login_success(io, pv, codec)
-        k = 0
-        for kind in play_hist:
-            if kind == 'ka':
-                k += 1
-                cid, cp = codec.encode('cb_keep_alive', {'id': 1000 + k})
-            elif kind == 'chat':
-                cid, cp = codec.encode('cb_chat', {
-                    'json': '{"text":"in"}', 'position': 0,
-                    'sender': '00000000-0000-0000-0000-000000000001'})
-            else:
-                cid, cp = unknown_id, b'\x01\x02\x03'
-            io.send_frame(cid, cp)
+        def play(hist, base):
+            k = 0
+            for kind in hist:
+                if kind == 'ka':
+                    k += 1
+                    cid, cp = codec.encode('cb_keep_alive', {'id': base + k})
+                elif kind == 'chat':
+                    cid, cp = codec.encode('cb_chat', {
+                        'json': '{"text":"in"}', 'position': 0,
+                        'sender': '00000000-0000-0000-0000-000000000001'})
+                else:
+                    cid, cp = unknown_id, b'\x01\x02\x03'
+                io.send_frame(cid, cp)
+        play(play_hist, 1000)
+        io.send_frame(sentinel_id, b'S1')
+        if late:
+            state['phase2'].wait(10.0)
+            play(play_hist2, 2000)
+            io.send_frame(sentinel_id, b'S2')
         # let the client talk, then end the conversation
         state['go'].wait(10.0)
         did, dp = codec.encode('play_disconnect', {'reason': '"end"'})
@@ -128,6 +146,7 @@ def scenario(run, rng, pv, idx):
 
     import threading
     state['go'] = threading.Event()
+    state['phase2'] = threading.Event()
     server = mcserver.Server(handler)
     orig_login_react = C.LoginReactor.react
     orig_play_react = C.PlayingReactor.react
@@ -154,40 +173,43 @@ def scenario(run, rng, pv, idx):
             log.emit('io.send.pkt', pkt=id(p), cls=type(p).__name__,
                      dir='out', n=len(data))
         conn.vf_send_hook = send_hook
-        lid = 0
-        for lst_name, early, outgoing, pool in (
-                ('early_in', True, False, in_types),
-                ('in', False, False, in_types),
-                ('early_out', True, True, out_types),
-                ('out', False, True, out_types)):
-            for _ in range(rng.randrange(0, 6)):
-                lid += 1
-                types = tuple(rng.sample(pool, rng.choice((1, 1, 2, 3))))
-                if rng.random() < 0.1:
-                    types = ()
-                ig_pool = safe_in_ignore if not outgoing else \
-                    ('ChatPacket', 'MyChat', 'KeepAlivePacket')
-                ignore_for = tuple(n for n in ig_pool if rng.random() < 0.25)
-                if lst_name == 'early_in' or outgoing:
-                    pass
-                cbk = make_listener(lid, lst_name, types, ignore_for)
-                kw = {}
-                if early:
-                    kw['early'] = True
-                if outgoing:
-                    kw['outgoing'] = True
-                if rng.random() < 0.5:
-                    conn.register_packet_listener(cbk, *types, **kw)
-                else:
-                    conn.listener(*types, **kw)(cbk)
-                config[lst_name].append((lid, types, ignore_for))
+        lid_counter = [0]
+
+        def register_batch(max_per_list):
+            for lst_name, early, outgoing, pool in (
+                    ('early_in', True, False, in_types),
+                    ('in', False, False, in_types),
+                    ('early_out', True, True, out_types),
+                    ('out', False, True, out_types)):
+                for _ in range(rng.randrange(0, max_per_list)):
+                    lid_counter[0] += 1
+                    lid = lid_counter[0]
+                    types = tuple(rng.sample(pool, rng.choice((1, 1, 2, 3))))
+                    if rng.random() < 0.1:
+                        types = ()
+                    ig_pool = safe_in_ignore if not outgoing else \
+                        ('ChatPacket', 'MyChat', 'KeepAlivePacket')
+                    ignore_for = tuple(n for n in ig_pool
+                                       if rng.random() < 0.25)
+                    cbk = make_listener(lid, lst_name, types, ignore_for)
+                    kw = {}
+                    if early:
+                        kw['early'] = True
+                    if outgoing:
+                        kw['outgoing'] = True
+                    if rng.random() < 0.5:
+                        conn.register_packet_listener(cbk, *types, **kw)
+                    else:
+                        conn.listener(*types, **kw)(cbk)
+                    config[lst_name].append((lid, types, ignore_for))
+        register_batch(6)
         w['config'] = {k: [(l, [t.__name__ for t in ts], list(ig))
                            for l, ts, ig in v] for k, v in config.items()}
 
         def matches(types, cls):
             return any(issubclass(cls, t) for t in types)
 
-        def predict_in(cls):
+        def predict_in(cls, config=config):
             name = cls.__name__
             seq = []
             for l, ts, ig in config['early_in']:
@@ -203,7 +225,7 @@ def scenario(run, rng, pv, idx):
                         break
             return seq, True
 
-        def predict_out(cls):
+        def predict_out(cls, config=config):
             name = cls.__name__
             seq = []
             for l, ts, ig in config['early_out']:
@@ -244,12 +266,51 @@ def scenario(run, rng, pv, idx):
                               ' only suppress that packet)',
                               dict(w, force=force, error=repr(e)))
                 return None
-        # wait until everything queued has been processed
-        pc.wait_for(lambda: not conn._outgoing_packet_queue, 5.0)
-        n_in_total = n_plugin + (1 if use_compression else 0) + 1 + \
-            len(play_hist)
         import time
-        time.sleep(0.03)
+
+        def sentinel_seen(n):
+            seen = {pl['pkt'] for _s, _r, kind, pl in log.events
+                    if pl.get('pid') == sentinel_id and pl.get('cls') ==
+                    'Packet' and pl.get('dir') == 'in'}
+            return len(seen) >= n
+
+        def settle(n):
+            # the networking thread handles packets one after the other: once
+            # the phase's sentinel has been dispatched, so has everything
+            # before it; then let it drain its write queue
+            if not pc.wait_for(lambda: sentinel_seen(n), 10.0):
+                return False
+            pc.wait_for(lambda: not conn._outgoing_packet_queue, 5.0)
+            time.sleep(0.02)
+            return True
+        if not settle(1):
+            return 'phase 1 never completed (%r)' % (rec.exceptions[:1],)
+        config1 = {k: list(v) for k, v in config.items()}
+        marker = None
+        sent_out2 = []
+        if late:
+            register_batch(4)
+            marker = log.emit('marker.phase2')
+            w['late_config'] = {k: [(l, [t.__name__ for t in ts], list(ig))
+                                    for l, ts, ig in v[len(config1[k]):]]
+                                for k, v in config.items()}
+            state['phase2'].set()
+            for j in range(rng.randrange(1, 4)):
+                K = rng.choice((sb.play.ChatPacket, MyChat))
+                p = K(message='late-%d-%d' % (idx, j))
+                force = rng.random() < 0.5
+                sent_out2.append((p, force))
+                packets_alive.append(p)
+                try:
+                    conn.write_packet(p, force=force)
+                except BaseException as e:
+                    run.violation('listeners/write_packet-raised:%s'
+                                  % type(e).__name__, 'write_packet() raised '
+                                  'to its caller', dict(w, error=repr(e)))
+                    return None
+            if not settle(2):
+                return 'phase 2 never completed (%r)' % (rec.exceptions[:1],)
+            run.count('scenarios_with_late_registration')
         state['go'].set()
         if not pc.wait_idle(conn, 20.0):
             return 'threads alive: ' + pc.dump_threads()
@@ -277,7 +338,7 @@ def scenario(run, rng, pv, idx):
             key = pl['pkt']
             if key not in per_pkt:
                 per_pkt[key] = {'cls': pl['cls'], 'calls': [],
-                                'dir': pl['dir']}
+                                'dir': pl['dir'], 'first': seq}
                 order.append(key)
             tag = pl['lid'] if kind == 'cb.listener' else \
                 'react' if kind == 'cb.reaction' else 'send'
@@ -306,7 +367,9 @@ def scenario(run, rng, pv, idx):
             if K is None:
                 run.count('packets_of_unmodelled_class')
                 continue
-            exp, _full = (predict_out if outgoing else predict_in)(K)
+            cfg_now = config if (marker is not None and
+                                 entry['first'] > marker) else config1
+            exp, _full = (predict_out if outgoing else predict_in)(K, cfg_now)
             n_checked += 1
             run.count('packets_dispatched')
             run.count('dispatched.' + ('out' if outgoing else 'in'))
@@ -317,14 +380,19 @@ def scenario(run, rng, pv, idx):
                     'call sequence for a packet differs from the documented '
                     'order (early, reaction/write, ordinary; registration '
                     'order; once each; ignore cuts off later stages)',
-                    dict(w, packet=name, got=calls, expected=exp))
+                    dict(w, packet=name, got=calls, expected=exp,
+                         after_late_registration=cfg_now is config))
                 return None
         # every incoming packet must have been dispatched at all (reaction or
         # a listener) unless nothing was predicted for it
         # ---- wire: suppression ------------------------------------------------
-        ka_echo = predict_in(cb.play.KeepAlivePacket)[1] and \
-            predict_out(sb.play.KeepAlivePacket)[1]
-        want_ka = [1000 + i + 1 for i in range(n_ka)] if ka_echo else []
+        def ka_echoed(cfg):
+            return predict_in(cb.play.KeepAlivePacket, cfg)[1] and \
+                predict_out(sb.play.KeepAlivePacket, cfg)[1]
+        want_ka = [1000 + i + 1 for i in range(n_ka)] \
+            if ka_echoed(config1) else []
+        if late and ka_echoed(config):
+            want_ka += [2000 + i + 1 for i in range(n_ka2)]
         got_ka, got_chat, got_plugin = [], [], []
         stray = []
         for st, fr in state['frames']:
@@ -351,7 +419,9 @@ def scenario(run, rng, pv, idx):
                           '(early ignore suppresses the reaction / the write)',
                           dict(w, got=got_ka, expected=want_ka))
         want_chat = [p.message for p, _f in sent_out
-                     if predict_out(type(p))[1]]
+                     if predict_out(type(p), config1)[1]] + \
+                    [p.message for p, _f in sent_out2
+                     if predict_out(type(p), config)[1]]
         if sorted(got_chat) != sorted(want_chat):
             run.violation('listeners/outgoing-suppression', 'an early outgoing'
                           ' ignore must keep the packet off the wire (and only'
@@ -377,6 +447,51 @@ def scenario(run, rng, pv, idx):
                 conn.disconnect(immediate=True)
             except Exception:
                 pass
+
+
+def concurrent_registration(run, rng, idx):
+    """Listeners registered from two threads at once (under line-level yield
+    injection) must all end up registered, once each, in their lists."""
+    import threading
+    from ..probes.linemon import LineMonitor
+    from minecraft.networking.connection import Connection
+    from minecraft.networking.packets import Packet
+    conn = Connection('127.0.0.1', 1, username='x', allowed_versions={757})
+    per_thread = 40
+    made = [[], []]
+
+    def worker(t):
+        for j in range(per_thread):
+            def cbk(packet, t=t, j=j):
+                pass
+            kw = {}
+            if (t + j) % 2:
+                kw['early'] = True
+            if j % 4 >= 2:
+                kw['outgoing'] = True
+            made[t].append(cbk)
+            conn.register_packet_listener(cbk, Packet, **kw)
+    with LineMonitor(files=['minecraft/networking/connection.py'],
+                     yield_prob=0.3, seed=rng.getrandbits(32)) as mon:
+        ts = [threading.Thread(target=worker, args=(t,)) for t in (0, 1)]
+        for t in ts:
+            t.start()
+        for t in ts:
+            t.join(30.0)
+        run.count('concurrent_registration.yields', mon.yields)
+    registered = [l.callback for lst in (
+        conn.packet_listeners, conn.early_packet_listeners,
+        conn.outgoing_packet_listeners, conn.early_outgoing_packet_listeners)
+        for l in lst]
+    want = made[0] + made[1]
+    run.count('concurrent_registrations', len(want))
+    missing = [c for c in want if registered.count(c) != 1]
+    if missing or len(registered) != len(want):
+        run.violation('listeners/registration-lost', 'listeners registered '
+                      'concurrently from two threads are not all registered '
+                      'exactly once', {'registered': len(registered),
+                                       'expected': len(want),
+                                       'lost_or_duplicated': len(missing)})
 
 
 def run(run):
@@ -412,9 +527,14 @@ def run(run):
         run.case(('cfg', i, pv))
         if err:
             run.inconclusive_because('scenario %d: %s' % (i, err))
+    for i in range(40 if thorough else 6):
+        if run.mine(i):
+            concurrent_registration(run, rng, i)
+            run.case(('concurrent-registration', i))
     run.require('scenarios', 10)
     run.require('packets_dispatched', 100)
     run.require('listener_calls', 50)
     run.require('reactions', 50)
     run.require('dispatched.out', 30)
     run.require('dispatched.in', 30)
+    run.require('scenarios_with_late_registration', 5)
